@@ -1,4 +1,5 @@
 """C04 — calls in tail position run in constant stack space (R04a-d)."""
+import re
 from ..facts import callee, op_place, op_const, short_path, loc_str
 from .common import *
 
@@ -18,7 +19,7 @@ ORACLE = {
     "compile_set": {"FALSE": 1},
     "compile_quasiquote": {"FALSE": 1},
     "compile_runtime_procedure_application": {"FALSE": 2},
-    "compile_runnable": {"TRUE": 1, "LAST": 1},
+    "compile_runnable": {"TRUE": 1, "LAST": 1},   # TRUE: the unspliced fallback for an empty splice; LAST: the spliced forms
     "eval": {"TRUE": 1},
 }
 WHY = {
@@ -61,6 +62,14 @@ def classify(f, op, own_tail, site_bb=None):
                 if site_bb in body and o[3] not in body:
                     return "OTHER"
         return "LAST"
+    if o[0] == "rv" and o[1]["rv"]["k"] == "bin" and o[1]["rv"]["op"] == "Eq" and site_bb is not None:
+        # `idx + 1 == forms.len()` inside `for (idx, form) in forms.iter().enumerate()`: the last element of the body
+        from ..shapes import shape
+        sh = shape(f, op, 7)
+        m = re.match(r"\(Eq \(Add <iter::Enumerate<I> as iter::Iterator>::next\(.*\)\.Some\.0\.0 c:1\)\.0 (vec::Vec::<T, A>|slice::<\[T\]>)::len\(", sh)
+        inloop = any(site_bb in ((f.reach_from(h) & f.reach_back(src)) | {h, src}) for src, h in f.back_edges())
+        if m and inloop:
+            return "LAST"
     return "OTHER"
 
 
